@@ -13,8 +13,8 @@ Proof.
 Qed.
 
 (* result of a dst-taking function: no panic, the returned slice shows [expect] *)
-Definition sel_post (expect : list Z) (res : option (mem * slice)) : Prop :=
-  exists m' r, res = Some (m', r) /\ slice_vals m' r = expect.
+Definition sel_post (m : mem) (expect : list Z) (res : option (mem * slice)) : Prop :=
+  exists m' r, res = Some (m', r) /\ slice_vals m' r = expect /\ length m <= length m'.
 (* result of an InPlace function on s: no panic; the returned slice is the front of s and shows [expect];
    s's window is a permutation of what it was; the heap has the same arrays *)
 Definition ip_post (m : mem) (s : slice) (expect : list Z) (res : option (mem * slice)) : Prop :=
@@ -31,10 +31,12 @@ Lemma filter_none {A} (f : A -> bool) l : (forall x, In x l -> f x = false) -> f
 Proof. induction l as [|x l IH]; intros H; cbn [filter]; [reflexivity|]. rewrite (H x (or_introl eq_refl)). apply IH. intros y Hy. apply H. right. exact Hy. Qed.
 
 Lemma append_all_vals m s vs : wfs m s ->
-  slice_vals (fst (append_all m s vs)) (snd (append_all m s vs)) = slice_vals m s ++ vs.
+  slice_vals (fst (append_all m s vs)) (snd (append_all m s vs)) = slice_vals m s ++ vs /\
+  length m <= length (fst (append_all m s vs)).
 Proof.
-  intros (W1 & W2 & W3). unfold append_all. destruct vs as [|v vs0]; [cbn [fst snd]; rewrite app_nil_r; reflexivity|].
-  set (vs := v :: vs0). destruct (Nat.leb_spec (len s + length vs) (cap s)) as [H|H]; cbn [fst snd].
+  intros (W1 & W2 & W3). unfold append_all. destruct vs as [|v vs0]; [cbn [fst snd]; rewrite app_nil_r; auto|].
+  set (vs := v :: vs0). destruct (Nat.leb_spec (len s + length vs) (cap s)) as [H|H]; cbn [fst snd];
+    (split; [|try rewrite set_arr_length; try rewrite app_length; lia]).
   - unfold slice_vals. cbn [arr off len]. rewrite arr_of_set_same by exact W1. rewrite window_app2. f_equal.
     + apply splice_window_before; lia.
     + apply splice_window. lia.
@@ -46,46 +48,47 @@ Qed.
 
 (* ---------------------------------------------------------------- the dst-taking functions *)
 Theorem go_filter_spec p m dst s : wfs m s -> wfs m dst -> claimed dst s ->
-  sel_post (filter p (slice_vals m s)) (go_filter p m dst s).
+  sel_post m (filter p (slice_vals m s)) (go_filter p m dst s).
 Proof.
-  intros Ws Wd C. unfold go_filter. destruct (sel_spec unit (pstep p) s tt m dst Ws Wd C) as (m' & r & E & V & _).
-  exists m', r. split; [exact E|]. rewrite V. apply kept_pstep.
+  intros Ws Wd C. unfold go_filter. destruct (sel_spec unit (pstep p) s tt m dst Ws Wd C) as (m' & r & E & V & _ & L & _).
+  exists m', r. split; [exact E|]. split; [|exact L]. rewrite V. apply kept_pstep.
 Qed.
 
 Theorem go_diff_spec m dst s1 s2 : wfs m s1 -> wfs m s2 -> wfs m dst -> claimed dst s1 ->
-  sel_post (spec_diff (slice_vals m s1) (slice_vals m s2)) (go_diff m dst s1 s2).
+  sel_post m (spec_diff (slice_vals m s1) (slice_vals m s2)) (go_diff m dst s1 s2).
 Proof.
   intros W1 W2 Wd C. unfold go_diff, spec_diff. destruct (Nat.eqb_spec (len s1) 0) as [H1|H1].
-  - exists m, (reslice0 dst). split; [reflexivity|]. rewrite (vals_nil_of_len0 m s1 H1). reflexivity.
+  - exists m, (reslice0 dst). split; [reflexivity|]. split; [|lia]. rewrite (vals_nil_of_len0 m s1 H1). reflexivity.
   - destruct (Nat.eqb_spec (len s2) 0) as [H2|H2].
     + rewrite (slice_vals_chk_wf _ _ W1). eexists _, _. split; [apply f_equal; apply surjective_pairing|].
-      rewrite append_all_vals. 2:{ destruct Wd as (?&?&?). unfold wfs, reslice0. cbn [arr off len cap]. repeat split; auto; lia. }
+      assert (Wd0 : wfs m (reslice0 dst)) by (destruct Wd as (?&?&?); unfold wfs, reslice0; cbn [arr off len cap]; repeat split; auto; lia).
+      destruct (append_all_vals m (reslice0 dst) (slice_vals m s1) Wd0) as (AV & AL). split; [|exact AL]. rewrite AV.
       rewrite reslice0_vals. cbn [app]. rewrite (vals_nil_of_len0 m s2 H2). symmetry. apply filter_all. reflexivity.
     + rewrite (slice_vals_chk_wf _ _ W2).
-      destruct (sel_spec unit (pstep (fun v => negb (memz v (slice_vals m s2)))) s1 tt m dst W1 Wd C) as (m' & r & E & V & _).
-      exists m', r. split; [exact E|]. rewrite V. apply kept_pstep.
+      destruct (sel_spec unit (pstep (fun v => negb (memz v (slice_vals m s2)))) s1 tt m dst W1 Wd C) as (m' & r & E & V & _ & L & _).
+      exists m', r. split; [exact E|]. split; [|exact L]. rewrite V. apply kept_pstep.
 Qed.
 
 Theorem go_intersect_spec m dst s1 s2 : wfs m s1 -> wfs m s2 -> wfs m dst -> claimed dst s1 ->
-  sel_post (spec_intersect (slice_vals m s1) (slice_vals m s2)) (go_intersect m dst s1 s2).
+  sel_post m (spec_intersect (slice_vals m s1) (slice_vals m s2)) (go_intersect m dst s1 s2).
 Proof.
   intros W1 W2 Wd C. unfold go_intersect, spec_intersect.
   destruct (Nat.eqb_spec (len s1) 0) as [H1|H1]; cbn [orb].
-  - exists m, (reslice0 dst). split; [reflexivity|]. rewrite (vals_nil_of_len0 m s1 H1). reflexivity.
+  - exists m, (reslice0 dst). split; [reflexivity|]. split; [|lia]. rewrite (vals_nil_of_len0 m s1 H1). reflexivity.
   - destruct (Nat.eqb_spec (len s2) 0) as [H2|H2].
-    + exists m, (reslice0 dst). split; [reflexivity|]. rewrite (vals_nil_of_len0 m s2 H2). symmetry. apply filter_none. reflexivity.
+    + exists m, (reslice0 dst). split; [reflexivity|]. split; [|lia]. rewrite (vals_nil_of_len0 m s2 H2). symmetry. apply filter_none. reflexivity.
     + rewrite (slice_vals_chk_wf _ _ W2).
-      destruct (sel_spec unit (pstep (fun v => memz v (slice_vals m s2))) s1 tt m dst W1 Wd C) as (m' & r & E & V & _).
-      exists m', r. split; [exact E|]. rewrite V. apply kept_pstep.
+      destruct (sel_spec unit (pstep (fun v => memz v (slice_vals m s2))) s1 tt m dst W1 Wd C) as (m' & r & E & V & _ & L & _).
+      exists m', r. split; [exact E|]. split; [|exact L]. rewrite V. apply kept_pstep.
 Qed.
 
 Theorem go_unique_by_key_spec key m dst s : wfs m s -> wfs m dst -> claimed dst s ->
-  sel_post (spec_unique_by key (slice_vals m s)) (go_unique_by_key key m dst s).
+  sel_post m (spec_unique_by key (slice_vals m s)) (go_unique_by_key key m dst s).
 Proof.
   intros Ws Wd C. unfold go_unique_by_key, spec_unique_by. destruct (Nat.eqb_spec (len s) 0) as [H1|H1].
-  - exists m, (reslice0 dst). split; [reflexivity|]. rewrite (vals_nil_of_len0 m s H1). reflexivity.
-  - destruct (sel_spec ustate (ustep key) s ([], 0) m dst Ws Wd C) as (m' & r & E & V & _).
-    exists m', r. split; [exact E|]. rewrite V. apply (unique_kept key (slice_vals m s) []).
+  - exists m, (reslice0 dst). split; [reflexivity|]. split; [|lia]. rewrite (vals_nil_of_len0 m s H1). reflexivity.
+  - destruct (sel_spec ustate (ustep key) s ([], 0) m dst Ws Wd C) as (m' & r & E & V & _ & L & _).
+    exists m', r. split; [exact E|]. split; [|exact L]. rewrite V. apply (unique_kept key (slice_vals m s) []).
 Qed.
 
 (* the aliased call dst = s[:0] (or any dst starting at s's first element with room for s): the result is still
